@@ -193,7 +193,11 @@ def runOp (op : String) (a : List String) : Option String :=
   | "wif.dec", [h] => do
     let b ← unhex h
     pure (match Wif.decodeWIF pr b with
-      | some (d, c, n) => "ok " ++ nhx d ++ " " ++ b2s c ++ " " ++ toString n.toNat
+      | some (d, c, n) =>
+        -- SerialisePubKey of the decoded key: the public key of d (32 key bytes), in the format the flag selects
+        let q := (Ecdsa.privKeyFromBytes (natBEpad 32 d)).2
+        "ok " ++ nhx d ++ " " ++ b2s c ++ " " ++ toString n.toNat ++ " " ++
+          hx (if c then Ecdsa.serCompressed q else Ecdsa.serUncompressed q)
       | none => "err")
   | "addr", [pk, id] => do
     let pk ← unhex pk; let id ← id.toNat?
@@ -208,7 +212,9 @@ def runOp (op : String) (a : List String) : Option String :=
   | "hash.hash160", [h] => do let b ← unhex h; pure ("ok " ++ hx (pr.hash160 b))
   | "parsepub", [h] => do
     let b ← unhex h
-    pure (match Ecdsa.parsePubKey b with | some q => "ok " ++ ptStr q | none => "err")
+    -- IsCompressedPubKey: 33 bytes and first byte 02/03 (a pure predicate on the bytes, whether or not they parse)
+    let ic := b.length == 33 && (b.headD 0 &&& 0xFE) == 2
+    pure ((match Ecdsa.parsePubKey b with | some q => "ok " ++ ptStr q | none => "err") ++ " C=" ++ b2s ic)
   | "serpub", [x, y] => do
     let x ← unnat x; let y ← unnat y
     pure ("ok " ++ hx (Ecdsa.serUncompressed (x,y)) ++ " " ++ hx (Ecdsa.serCompressed (x,y)) ++ " " ++
@@ -216,7 +222,7 @@ def runOp (op : String) (a : List String) : Option String :=
   | "privbytes", [h] => do
     let b ← unhex h
     let (d, q) := Ecdsa.privKeyFromBytes b
-    pure ("ok " ++ hx (Ecdsa.privSerialise d) ++ " " ++ ptStr q)
+    pure ("ok " ++ hx (Ecdsa.privSerialise d) ++ " " ++ ptStr q ++ " " ++ ptStr q)
   | "curve.add", [x1, y1, x2, y2] => do
     let x1 ← unnat x1; let y1 ← unnat y1; let x2 ← unnat x2; let y2 ← unnat y2
     pure ("ok " ++ ptStr (Curve.add (x1,y1) (x2,y2)))
@@ -280,6 +286,16 @@ def runOp (op : String) (a : List String) : Option String :=
     | some (m, _) =>
       let seeds := phs.map fun p => pr.pbkdf2_512 m (Bip39.mnemonicSalt p) 2048 64
       pure ("ok" ++ String.join (seeds.map fun s => " " ++ hx s))
+  | "xk.dpub", [ks, p] => do
+    -- DerivePublicKeyFromPath on a key imported from its string form
+    let ks ← unhex ks; let p ← unhex p
+    pure (match Bip32.fromString pr ks with
+      | .error _ => "err-import"
+      | .ok k => match Bip32.deriveChildFromPath pr k p with
+        | .error _ => "err"
+        | .ok c => match Bip32.ecPubKey c with
+          | some q => "ok " ++ hx (Ecdsa.serCompressed q)
+          | none => "err")
   | "dpath.fwd", [i] => do let i ← i.toNat?; pure ("ok " ++ hx (Bip32.derivePath (UInt64.ofNat i)))
   | "dpath.back", [p] => do
     let p ← unhex p
